@@ -39,6 +39,11 @@ def make_message(kind, dev, value=None):
     return cls(**kw)
 
 
+def kind_of(message):
+    n = type(message).__name__
+    return n[:1].lower() + n[1:]
+
+
 _DRIVER_CLASSES = {}
 
 
@@ -49,6 +54,8 @@ def driver_class(name):
 
         def message_from_client(self, message):
             self._vf_log.append(("dev", self._vf_id, message))
+            if getattr(self, "_vf_react", None):
+                self._vf_react("dev", self._vf_id, self, message)
 
         ns = {
             "name": name,
@@ -88,6 +95,19 @@ class Real:
         self.router = Router()
         self.log = []
         log = self.log
+        # re-entrant endpoints: (side, id) -> (trigger kinds, message kind, device name); each fires at most once per operation,
+        # from INSIDE its delivery callback (as a real Driver answers getProperties, or an in-process client reacts to a definition)
+        self.reactions = {}
+        self.armed = set()
+        real = self
+
+        def react(side, eid, endpoint, message):
+            r = real.reactions.get((side, eid))
+            if r is None or (side, eid) not in real.armed or kind_of(message) not in r[0]:
+                return
+            real.armed.discard((side, eid))
+            real.router.process_message(make_message(r[1], r[2]), sender=endpoint)
+        self.react = react
 
         class RecDevice(Device):
             def __init__(s, did, acc):
@@ -99,6 +119,7 @@ class Real:
 
             def message_from_client(s, message):
                 log.append(("dev", s.did, message))
+                react("dev", s.did, s, message)
 
         class RecClient(Client):
             def __init__(s, cid):
@@ -106,6 +127,7 @@ class Real:
 
             def message_from_device(s, message):
                 log.append(("cli", s.cid, message))
+                react("cli", s.cid, s, message)
 
         self.RecDevice, self.RecClient = RecDevice, RecClient
         self.dev = {}
@@ -115,6 +137,7 @@ class Real:
     def apply(self, op):
         """Returns (deliveries as sorted list, exception or None)."""
         del self.log[:]
+        self.armed = set(self.reactions)
         kind = op[0]
         exc = None
         try:
@@ -122,7 +145,7 @@ class Real:
                 d = op[1]
                 if d in self.uni.real_drivers:
                     drv = driver_class(d)(router=self.router)   # registers itself
-                    drv._vf_log, drv._vf_id = self.log, d
+                    drv._vf_log, drv._vf_id, drv._vf_react = self.log, d, self.react
                     self.dev[d] = drv
                 else:
                     self.dev[d] = self.RecDevice(d, self.acc[d])
@@ -150,7 +173,7 @@ class Real:
         except Exception as e:  # noqa
             exc = e
         got = sorted((side, eid) for side, eid, m in self.log)
-        ident_ok = all(m is getattr(self, "_msg", m) for _, _, m in self.log) if kind in ("csend", "dsend") else True
+        ident_ok = all(m is getattr(self, "_msg", m) for _, _, m in self.log) if kind in ("csend", "dsend") and not self.reactions else True
         return got, exc, ident_ok
 
 
@@ -402,3 +425,98 @@ def replay_history(ctx, uni, judge, history, op):
     # and probe the resulting state
     for pop in send_ops(uni, model):
         ex.compare(real, model, pop, h + [tuple(op)])
+
+
+# ---- re-entrant endpoints --------------------------------------------------------------------------------------------
+
+CLIENT_TRIGGERS = DEF_KINDS + SET_KINDS + ["getProperties", "message", "delProperty"]
+DEVICE_TRIGGERS = NEW_KINDS + ["getProperties"]
+
+
+def reactive_expected(model, op, reactions):
+    """Expected multiset of deliveries when endpoints answer from inside their callbacks.  No reaction changes the router
+    state and each endpoint fires at most once per operation, so the multiset does not depend on the router's iteration order."""
+    total = Counter()
+    fired = set()
+    work = [(op[2], op[3], op[1])]
+    while work:
+        kind, name, sender = work.pop()
+        for side, eid in model.deliver(kind, name, sender):
+            total[(side, eid)] += 1
+            r = reactions.get((side, eid))
+            if r is not None and (side, eid) not in fired and kind in r[0]:
+                fired.add((side, eid))
+                work.append((r[1], r[2], eid))
+    return total, fired
+
+
+def reactive_history(ctx, uni, judge, i):
+    """A random router state, 1..3 endpoints that send from inside their delivery callback, then send operations."""
+    rng = ctx.rng("reactive", i)
+    real = Real(uni)
+    model = Model(uni.accepts())
+    history = []
+    for d in uni.devices:
+        if rng.random() < 0.85:
+            history.append(("regdev", d))
+    for c in uni.clients:
+        if rng.random() < 0.85:
+            history.append(("regcli", c))
+            for name in uni.names:
+                if rng.random() < 0.6:
+                    history.append(("blob", c, name, rng.choice(POLICIES)))
+    for op in history:
+        model_apply(model, op)
+        real.apply(op)
+    reactions = {}
+    endpoints = [("dev", d) for d in model.devices] + [("cli", c) for c in model.clients]
+    rng.shuffle(endpoints)
+    for side, eid in endpoints[:rng.choice([1, 2, 2, 3])]:
+        if side == "cli":
+            trig = set(rng.sample(CLIENT_TRIGGERS, rng.choice([2, 5, len(CLIENT_TRIGGERS)])))
+            kind = rng.choice(["getProperties"] + NEW_KINDS + ["pingReply"])
+            name = rng.choice(list(uni.names) + ["U"]) if kind != "pingReply" else None
+            if kind == "getProperties" and rng.random() < 0.4:
+                name = None
+        else:
+            trig = set(rng.sample(DEVICE_TRIGGERS, rng.choice([1, 3, len(DEVICE_TRIGGERS)])))
+            kind = rng.choice(DEF_KINDS + SET_KINDS + ["setBLOBVector", "message", "delProperty"])
+            name = eid if eid != "*" else rng.choice(uni.names)
+        reactions[(side, eid)] = (trig, kind, name)
+    real.reactions = reactions
+    pops = [o for o in send_ops(uni, model)]
+    case_base = {"mode": "reactive", "i": i, "uni": [uni.devices, uni.clients]}
+    for step in range(12):
+        op = rng.choice(pops)
+        want, fired = reactive_expected(model, op, reactions)
+        got_list, exc, _ = real.apply(op)
+        got = Counter(got_list)
+        ctx.evaluations += 1
+        ctx.distinct.add(hash(("reactive", i, step)) & 0xFFFFFFFFFFFFFFFF)
+        ctx.count("transitions")
+        ctx.count("deliveries_observed", len(got_list))
+        ctx.count("reentrant_operations")
+        ctx.count("reentrant_sends_from_inside_a_delivery", len(fired))
+        ctx.count("client_originated_messages" if op[0] == "csend" else "device_originated_messages")
+        if exc is None and got == want:
+            continue
+        case = dict(case_base, step=step, op=list(op))
+        detail = {"history": [list(o) for o in history], "reactions": {f"{k[0]}:{k[1]}": [sorted(v[0]), v[1], v[2]] for k, v in reactions.items()},
+                  "expected": sorted(want.elements()), "observed": sorted(got.elements())}
+        if exc is not None:
+            ctx.violate(f"reentrant:router-raises:{type(exc).__name__}", f"op {op} with re-entrant endpoints raised {exc!r}", case, detail)
+            continue
+        sides = {k[0] for k in set(want) | set(got) if want.get(k, 0) != got.get(k, 0)}
+        for side in sorted(sides):
+            owner = "client" if side == "dev" else "device"
+            if owner != judge:
+                ctx.count("mismatches_owned_by_other_property")
+                continue
+            missing = sorted(k for k in want if k[0] == side and got.get(k, 0) < want[k])
+            extra = sorted(k for k in got if k[0] == side and got[k] > want.get(k, 0))
+            what = "missed" if missing and not extra else ("extra" if extra and not missing else "wrong")
+            ctx.violate(f"reentrant:{'device' if side == 'dev' else 'client'}-deliveries-{what}",
+                        f"op {op}, endpoints sending from inside their callbacks: missing {missing}, unexpected {extra}", case, detail)
+    ctx.count("reactive_histories")
+    if i % 100 == 0:
+        ctx.sample({"reactive_history": [list(o) for o in history][:12], "reactions": {f"{k[0]}:{k[1]}": [v[1], v[2]] for k, v in reactions.items()}})
